@@ -20,7 +20,7 @@ let fnv_n (pl : n list) : string =
 
 let load (path : string) : prog =
   let ic = open_in path in
-  let lps = ref N0 and ncls = ref (n_of_int 1) and target = ref N0 and seed = ref N0 in
+  let lps = ref N0 and ncls = ref (n_of_int 1) and target = ref N0 and seed = ref N0 and plmode = ref N0 in
   let inits = ref [] and rows = ref [] and targets = ref [] in
   (try while true do
     let t = split (input_line ic) in
@@ -29,6 +29,7 @@ let load (path : string) : prog =
      | "ncls" :: v :: _ -> ncls := n_of_token v
      | "target" :: v :: _ -> target := n_of_token v
      | "seed" :: v :: _ -> seed := n_of_token v
+     | "plmode" :: v :: _ -> plmode := n_of_token v
      | "ptarget" :: a :: b :: _ -> targets := (n_of_token a, n_of_token b) :: !targets
      | "init" :: a :: b :: c :: d :: _ ->
        inits := (((n_of_token a, n_of_token b), n_of_token c), n_of_token d) :: !inits
@@ -48,7 +49,7 @@ let load (path : string) : prog =
        rows := ((n_of_token ty, n_of_token cls), { r_draws = draws; r_mem = mem; r_outs = outs }) :: !rows
      | _ -> ())
   done with End_of_file -> close_in ic);
-  { p_lps = !lps; p_ncls = !ncls; p_target = !target; p_seed = !seed; p_targets = List.rev !targets;
+  { p_lps = !lps; p_ncls = !ncls; p_target = !target; p_seed = !seed; p_plmode = !plmode; p_targets = List.rev !targets;
     p_inits = List.rev !inits; p_rows = List.rev !rows }
 
 let run () =
